@@ -252,6 +252,13 @@ func VH_C19_fields() {
 	}
 	vReach("metadata", true)
 	vAssert("C19.entity-id-is-sp-issuer", md.EntityID == sp.ServiceProviderIssuer)
+	// (native replay only) the descriptor serialises to well-formed XML that parses back to the same values
+	back := &types.EntityDescriptor{}
+	if vMarshalRoundTrip(md, back) && back.SPSSODescriptor != nil && len(back.SPSSODescriptor.AssertionConsumerServices) == 1 {
+		vAssert("C19.xml-round-trip-keeps-entity-id-and-acs", back.EntityID == md.EntityID &&
+			back.SPSSODescriptor.AssertionConsumerServices[0].Location == md.SPSSODescriptor.AssertionConsumerServices[0].Location &&
+			len(back.SPSSODescriptor.KeyDescriptors) == len(md.SPSSODescriptor.KeyDescriptors))
+	}
 	d := md.SPSSODescriptor
 	vAssert("C19.has-sp-descriptor", d != nil)
 	if d == nil {
